@@ -20,4 +20,6 @@ grep -E "^test result" "$OUT/.without.log" | head -3
 git apply "$OUT/patch.diff"
 echo "with_rc=$W without_rc=$WO"
 echo "--- checks on the change"
-cd /verif && SHOW=2 tools/try_patch.sh "$OUT/patch.diff" C01 C02 C03 C06 C07 C08 C09 C10 C11 C12 C13 C14 C15 C16 C17 C18 C19 C20 2>&1 | grep -v "silent" | cut -c1-330 | tee "$OUT/.checks.log"
+# the checks run against the worktree itself (VERIF_REPO), /repo is not touched
+cd /verif && SHOW=2 tools/wtcheck.sh "$WT" C01 C02 C03 C06 C07 C08 C09 C10 C11 C12 C13 C14 C15 C16 C17 C18 C19 C20 2>&1 | grep -v "silent" | cut -c1-330 | tee "$OUT/.checks.log"
+rm -rf /var/tmp/wtcheck.$(basename $WT)
